@@ -84,6 +84,12 @@ def TopicCfg.setDefault (tc : TopicCfg) (n : Int) : TopicCfg := { dflt := n, ovr
 def TopicCfg.setPartitions (tc : TopicCfg) (t : Nat) (n : Int) : TopicCfg :=
   { dflt := tc.dflt, ovr := fun x => if x = t then some n else tc.ovr x }
 
+/-- `SetPartitions(m)` for a Go map `m` with the entries `l`: the mock copies the entries into its own table -
+    what the caller (or another mock that was given the same map) does with `m` afterwards cannot reach it -/
+def TopicCfg.setPartitionsMap : TopicCfg → List (Nat × Int) → TopicCfg
+  | tc, [] => tc
+  | tc, (t, n) :: l => TopicCfg.setPartitionsMap (tc.setPartitions t n) l
+
 def upd {α : Type} (f : Nat → α) (t : Nat) (v : α) : Nat → α := fun x => if x = t then v else f x
 
 /-- state shared by both producer mocks: `expectations`, `lastOffset`, the per-topic partitioners, `TopicConfig` -/
